@@ -789,6 +789,15 @@ func (h *vingH) monitors(storeKind string, o vingObs) {
 				if m := h.byTok[d.dig]; m != nil && m.kind == "man" && d.size != len(m.raw) && !h.inOldResponse(s, d) {
 					h.flag("convert-wrong-descriptor", fmt.Sprintf("%s store: referrer %s of subject %s is listed with size %d, the manifest has %d bytes", storeKind, d.dig, s, d.size, len(m.raw)))
 				}
+				// … and with the manifest's own annotations (read here from the stored bytes), not with what a fallback index said
+				if m := h.byTok[d.dig]; m != nil && m.kind == "man" && !h.inOldResponse(s, d) {
+					var own struct {
+						Annotations map[string]string `json:"annotations"`
+					}
+					if json.Unmarshal(m.raw, &own) == nil && vingAnnTok(own.Annotations) != d.ann {
+						h.flag("convert-wrong-descriptor", fmt.Sprintf("%s store: referrer %s of subject %s is listed with annotations %q, the manifest has %q", storeKind, d.dig, s, d.ann, vingAnnTok(own.Annotations)))
+					}
+				}
 			}
 		}
 		for d := range required[s] {
